@@ -3,11 +3,15 @@
    granularity at which the code's steps are visible to other threads (mutex, partial records — a
    record's bytes appear in the file in arbitrary increments —, KeyDir publish and lookup, per-reader
    mapped lengths, the bounded reader pool, the remap rule of LogReader::at).
-   Partial: merge and rollover are not in this model (they are exercised by the schedule and stress
-   runs of the check); the mutex, DashMap shard atomicity and mmap coherence are assumed as modelled. *)
+   A second interleaving model (Conc/MergeLTS.v) covers gets against a running merge pass: the merge
+   holds the writer mutex throughout, readers keep the DashMap guard of their entry until they have
+   read the value, the merge loop copies and re-points entry by entry under the entry's lock and
+   unlinks afterwards.  Partial: the two models are not composed into one; rollover of the active file
+   is exercised by the schedule and stress runs of the check only; the mutex, DashMap shard atomicity
+   and mmap coherence are assumed as modelled. *)
 From Coq Require Import List Arith.
 Import ListNotations.
-From BC Require Import Conc.Lin Conc.StoreLTS Conc.StoreSafe Conc.StoreLin Conc.StoreLive.
+From BC Require Import Conc.Lin Conc.StoreLTS Conc.StoreSafe Conc.StoreLin Conc.StoreLive Conc.MergeLTS Conc.MergeSafe.
 
 (* 1. No schedule makes any thread panic: whatever the interleaving and however the bytes of a record
       trickle into the file, the slice a get takes of its mapping is in range. *)
@@ -51,6 +55,24 @@ Theorem C04_pinned_rule_refuted :
   exists s, lrun rule_pinned (linit 1) d3_schedule = Some s /\ thr s 1 = PPanicked /\ pool s = [].
 Proof. exact pinned_rule_panics. Qed.
 Print Assumptions C04_pinned_rule_refuted.
+
+(* 6. Gets against a merge pass, for every schedule: no get reads from a file that was unlinked, every
+      get returns the value the abstract map held at its lookup, and the merge never changes the
+      abstract map.  [J T s]: index entries point at existing records, readers hold what the index says
+      (true of every quiescent state: J_init); [run_ok]: a merge starts with a work list that covers
+      every index entry lying in a selected file. *)
+Theorem C04_gets_vs_merge : forall T es s s', J T s -> run_ok T s es -> mrun T true s es = Some s' ->
+  (forall t, readers s' t <> RFailed) /\
+  (forall t k v c, readers s' t = RDone k v c -> v = MergeLTS.gmap s k) /\
+  (forall k, MergeLTS.gmap s' k = MergeLTS.gmap s k).
+Proof. exact merge_vs_gets. Qed.
+Print Assumptions C04_gets_vs_merge.
+
+(* 7. ... and it is the guard that does it: when the reader drops it after the lookup, an explicit
+      schedule makes a get read an unlinked file (the shape of seeded change C04-A / C01-B). *)
+Theorem C04_unguarded_reader_refuted : exists s, mrun 1 false demo_state demo_schedule = Some s /\ readers s 0 = RFailed.
+Proof. exact unguarded_reader_fails. Qed.
+Print Assumptions C04_unguarded_reader_refuted.
 
 Example C04_example :
   exists s, lrun rule_fixed (linit 1) d3_schedule = Some s /\ thr s 1 = PGRead 150 (Some 20).
